@@ -29,7 +29,9 @@ CONSTANTS WSizes,        \* sizes of a Write
           MaxSingles,    \* single Read calls before the drain
           ReadWrites,    \* outputs of uses with at most this many Writes are read interactively
           RefTotals,     \* payload sizes of reference-encoded streams
-          MaxTruncItem   \* truncations / source errors are placed at items 1..MaxTruncItem
+          MaxTruncItem,  \* truncations / source errors are placed at items 1..MaxTruncItem
+          RefBlocks,     \* block sizes of reference xerial streams (the Java client: 32 KiB)
+          Parts_         \* which of the three machines run: subset of {"snappy", "reader", "opaque"}
 
 VARIABLES wpool, rpool, opool, ph, use
 vars == <<wpool, rpool, opool, ph, use>>
@@ -41,7 +43,7 @@ Init == wpool = {} /\ rpool = {} /\ opool = {} /\ ph = "idle" /\ use = Nil
 -----------------------------------------------------------------------------
 (* snappy writer use *)
 StartW ==
-  /\ ph = "idle"
+  /\ ph = "idle" /\ "snappy" \in Parts_
   /\ \E framed \in BOOLEAN, budget \in Budgets, o \in wpool \cup {NewXW(TRUE)} :
        /\ wpool' = wpool \ {o}                                   \* Acquire: pool | new
        /\ use' = [w |-> XWReset(o, framed), sh |-> NewXW(framed), \* Reset; the shadow is new
@@ -72,7 +74,7 @@ WClose ==
   /\ ph = "w"
   /\ LET a == XWFlush(use.w, use.s)
          b == XWFlush(use.sh, use.shs)
-     IN /\ wpool' = wpool \cup {XWReset(a.w, TRUE)}               \* Release
+     IN /\ wpool' = {XWReset(a.w, TRUE)}                           \* Release (sync.Pool may drop what it held)
         /\ IF use.failed \/ a.err
            THEN ph' = "idle" /\ use' = Nil
            ELSE /\ ph' = "wdone"
@@ -84,9 +86,9 @@ WAbandon == ph = "w" /\ ph' = "idle" /\ use' = Nil /\ UNCHANGED <<wpool, rpool, 
 
 (* a stream from a reference producer instead *)
 StartRef ==
-  /\ ph = "idle"
-  /\ \E t \in RefTotals, framed \in BOOLEAN :
-       LET items == IF framed THEN XerialStream(t, Block) ELSE RawStream(t) IN
+  /\ ph = "idle" /\ "reader" \in Parts_
+  /\ \E t \in RefTotals, framed \in BOOLEAN, bsz \in RefBlocks :
+       LET items == IF framed THEN XerialStream(t, bsz) ELSE RawStream(t) IN
        use' = [items |-> items, shitems |-> items, total |-> t, framed |-> framed, nw |-> 0, same |-> TRUE, clean |-> FALSE]
   /\ ph' = "wdone" /\ UNCHANGED <<wpool, rpool, opool>>
 
@@ -101,7 +103,7 @@ Cuts(items) ==
 SrcOf(items, c) == IF c.item = 0 THEN Whole(items) ELSE Source(items, c.item - 1, c.part, c.kind)
 
 StartR ==
-  /\ ph = "wdone" /\ use.nw <= ReadWrites
+  /\ ph = "wdone" /\ use.nw <= ReadWrites /\ "reader" \in Parts_
   /\ \E c \in Cuts(use.items), o \in rpool \cup {NewXR} :
        /\ c.item \in 1..Len(use.items) => c.part \in Parts(use.items[c.item])
        /\ rpool' = rpool \ {o}
@@ -120,13 +122,13 @@ RStep(op) ==
 
 ROp ==
   /\ ph = "r" /\ use.fin = "ok"
-  /\ \/ use.singles < MaxSingles /\ \E bs \in RSizes : RStep([op |-> "read", n |-> bs])
+  /\ \/ use.singles < (IF use.valid THEN MaxSingles ELSE 1) /\ \E bs \in RSizes : RStep([op |-> "read", n |-> bs])
      \/ \E bs \in RSizes : RStep([op |-> "drain", n |-> bs])
      \/ RStep([op |-> "writeto", n |-> 0])
   /\ UNCHANGED <<wpool, rpool, opool, ph>>
 
 RClose ==                                                        \* at any point of the stream
-  /\ ph = "r" /\ rpool' = rpool \cup {XRReset(use.r)} /\ ph' = "idle" /\ use' = Nil /\ UNCHANGED <<wpool, opool>>
+  /\ ph = "r" /\ rpool' = {XRReset(use.r)} /\ ph' = "idle" /\ use' = Nil /\ UNCHANGED <<wpool, opool>>
 RAbandon == ph = "r" /\ ph' = "idle" /\ use' = Nil /\ UNCHANGED <<wpool, rpool, opool>>
 
 -----------------------------------------------------------------------------
@@ -136,7 +138,7 @@ RAbandon == ph = "r" /\ ph' = "idle" /\ use' = Nil /\ UNCHANGED <<wpool, rpool, 
 (* gzip.NewReader reads the gzip header inside Reset: when that fails the  *)
 (* pooled object goes straight back and the caller gets an error reader.   *)
 OStart ==
-  /\ ph = "idle"
+  /\ ph = "idle" /\ "opaque" \in Parts_
   /\ \E c \in OpaqueCodecs, kind \in {"w", "r"} :
        \E o \in {x \in opool : x.codec = c /\ x.kind = kind} \cup {NewOp(c, kind)} :
           \/ /\ opool' = opool \ {o}
@@ -147,7 +149,7 @@ OStart ==
   /\ UNCHANGED <<wpool, rpool>>
 OUse == ph = "o" /\ \E out \in {"ok", "err"} : use' = [use EXCEPT !.o = OpUse(@, out)] /\ UNCHANGED <<wpool, rpool, opool, ph>>
 OClose ==
-  /\ ph = "o" /\ \E d \in {"clean", "err"} : opool' = opool \cup {[use.o EXCEPT !.dirty = d]}
+  /\ ph = "o" /\ \E d \in {"clean", "err"} : opool' = {x \in opool : x.codec # use.o.codec \/ x.kind # use.o.kind} \cup {[use.o EXCEPT !.dirty = d]}
   /\ ph' = "idle" /\ use' = Nil /\ UNCHANGED <<wpool, rpool>>
 OAbandon == ph = "o" /\ ph' = "idle" /\ use' = Nil /\ UNCHANGED <<wpool, rpool, opool>>
 
@@ -196,6 +198,12 @@ HistoryFree ==
 (* sets for the configuration files (a .cfg cannot write -1) *)
 BudgetsAll == {-1, 0, 1, 2, 3, 5}
 BudgetsNone == {-1}
+BudgetsSome == {-1, 0, 2, 3}
+PartsWriter == {"snappy"}
+PartsReader == {"snappy", "reader"}
+PartsOpaque == {"opaque"}
+BlocksJava == {Block}
+BlocksAny == {Block, 2 * Block, 4 * Block, 20000}
 
 (* informational: FALSE is reachable -- a framed block can exceed 32 KiB of input after an unframed use grew the buffer *)
 BlocksWithin32K == ph = "wdone" => MaxBlock(use.items) <= Block \/ ~use.framed
